@@ -145,6 +145,7 @@ def prop_C03(run):
     if pc_:
         rules_tab.tab_cli_derive_when(run, pc_)  # every group that is written gets its file name, after all inputs are known
         rules_tab.tab_cli_distinct_outputs(run, pc_)
+        rules_tab.tab_cli_derive_not_any_input(run, pc_)   # a derived name never overwrites an input
     rules_tab.tab_cli_groups(run)               # ... and reaches the write
     # unchecked arithmetic in the formatters (a panic on an empty or odd-sized output)
     lim2_obligations(run, only=lambda key, f: "bitvec_format" in key)
